@@ -52,12 +52,14 @@ def cmd_lint(args):
 
 
 def cmd_weave(args):
+    U.BUILD = os.path.join(U.OUT, 'build')
     u = U.Unit(args[0])
     w = U.Woven(u)
     print(w.write())
 
 
 def cmd_verify(args):
+    U.BUILD = os.path.join(U.OUT, 'build')
     name = args[0]
     rlimit = None
     if '--rlimit' in args:
